@@ -91,6 +91,12 @@ CLAIMS["C16"] = ("literal-table extraction from the MIR string-comparison chains
     "junk trimming removes all characters of the documented sets. Does not decide Path::extension semantics on odd names.",
     "DESIGN.md §3 C16")
 
+CLAIMS["C15"] = ("constant-operand and builder-chain analysis of the jwalk walker, CFG dominance of FileValid by the regular-file test, constant flags at the classifier call sites plus call-graph reachability to the one classifier, receiver identity of the path-list pushes in cli_process_args",
+    "Static necessary-condition check of path expansion: sorted link-following walk, only regular files become sources, explicit files "
+    "classified with unparseable_are_text=true and walked files with false by the same classifier, stdin paths spliced into the same list "
+    "at the '-' position. Does not decide jwalk's ordering relation or symlink cycles.",
+    "DESIGN.md §3 C15")
+
 NA_REASON = {}
 
 checks = []
